@@ -432,10 +432,14 @@ class Exec(Core):
         info = self.find_class(clsname)
         if info is not None:
             for c in info.mro():
-                n = c.name if isinstance(c, ClassInfo) else c.split('.')[-1]
-                for x in ([n] if n == clsname else self.class_names(n)):
-                    if x not in out:
-                        out.append(x)
+                if isinstance(c, ClassInfo):
+                    if c.name not in out:
+                        out.append(c.name)
+                else:
+                    n = c.split('.')[-1]
+                    for x in (self.class_names(n) if n in BUILTIN_EXC else [n]):
+                        if x not in out:
+                            out.append(x)
         return out
 
     def find_class(self, name):
